@@ -312,7 +312,7 @@ def run_table(case, ctx):
   drho = cut_rho / (nrho - 1)
 
   def expect(name, got, want, tol=0.0):
-    if abs(got - want) > tol:
+    if not (abs(got - want) <= tol):
       ctx.violation("table_grid", "target %s (%s step=%s k=%d): %s = %r, expected %r" % (target, case["combo"], step, k, name, got, want), what="table_grid", field=name.split("[")[0],
                     mech="truncation" if name in ("rows", "Nr", "n") and got == want - 1 else "other")
 
